@@ -239,15 +239,19 @@ def child_launchsave(arg: dict) -> dict:
 
     def cond() -> bool:
         fired[0] += 1
-        return fired[0] == 3
+        return fired[0] in ((3, 6) if arg.get("keeper") is not None else (3,))
 
+    keeper = None
+    if arg.get("keeper") is not None:
+        from pamiq_core.state_persistence import LatestStatesKeeper
+        keeper = LatestStatesKeeper(states, arg["keeper"])
     hook.armed = True
     err = None
     try:
         launch(interaction, models, buffers, trainers,
                dict(states_dir=states, max_uptime=0.12, web_api_address=None,
-                    save_state_condition=cond if arg.get("runtime") else None,
-                    timeout_for_all_threads_pause=5.0))
+                    save_state_condition=cond if (arg.get("runtime") or keeper is not None) else None,
+                    states_keeper=keeper, timeout_for_all_threads_pause=5.0))
     except BaseException as e:      # noqa: BLE001
         err = f"{type(e).__name__}: {e}"
     hook.armed = False
@@ -662,6 +666,59 @@ def launch_crash_case(case: dict, rng, res: SuiteResult | None = None):
         shutil.rmtree(base, ignore_errors=True)
 
 
+def keeper_crash_case(case: dict, res: SuiteResult | None = None):
+    """Real launch() with a LatestStatesKeeper(max_keep) and two runtime saves + the final one, killed
+    at operations of the 2nd and 3rd save: the state completed just before the one being written is
+    among the max_keep most recent ones and must still be there, loadable (retention must never run
+    ahead of a save that may not complete)."""
+    spec = case["spec"]
+    violations: list[Violation] = []
+    base = tempfile.mkdtemp(prefix="pamiq-verif.")
+    try:
+        rec = run_child("launchsave", {"spec": spec, "states_dir": os.path.join(base, "rec"),
+                                       "exit_at": None, "keeper": case["keeper"]})
+        if rec.get("error") or "ops" not in rec:
+            raise RuntimeError(f"recording launch with keeper failed: {rec}")
+        ops = rec["ops"]
+        tops_seq = []
+        for _k, p in ops:
+            t = p.split(os.sep)[0]
+            if t not in tops_seq:
+                tops_seq.append(t)
+        if len(tops_seq) < 3:
+            raise RuntimeError(f"recording launch with keeper made {len(tops_seq)} saves")
+        later = [k for k, (_kind, p) in enumerate(ops) if tops_seq.index(p.split(os.sep)[0]) >= 1]
+        ks = case.get("ks") or later[::max(1, len(later) // 10)]
+
+        def one(k):
+            sd = os.path.join(base, f"k{k}")
+            return k, sd, run_child("launchsave", {"spec": spec, "states_dir": sd, "exit_at": k,
+                                                    "keeper": case["keeper"]})
+        with ThreadPoolExecutor(max_workers=8) as ex:
+            runs = list(ex.map(one, ks))
+        loader = Loader(spec)
+        try:
+            for k, sd, r in runs:
+                if r["_exit"] != EXIT_AT:
+                    if res is not None: res.hit("keeper-run-not-killed")
+                    continue
+                dirs = sorted(os.listdir(sd))
+                complete = [n for n in dirs if loader.load(Path(sd) / n) == "ok"]
+                if res is not None: res.hit(f"keeper-kill:complete={len(complete)}")
+                if case["keeper"] >= 1 and not complete:
+                    violations.append(Violation(
+                        "crash:completed-state-deleted-before-save-finished",
+                        f"launch() with LatestStatesKeeper(max_keep={case['keeper']}) killed before "
+                        f"operation {k} (inside its save #{tops_seq.index(ops[k][1].split(os.sep)[0]) + 1}): "
+                        f"no completed state is left on disk ({dirs})", {**case, "k": k}))
+                    break
+        finally:
+            loader.close()
+    finally:
+        shutil.rmtree(base, ignore_errors=True)
+    return violations
+
+
 def suite_launch(ctx: Ctx) -> SuiteResult:
     res = SuiteResult("crash-every-op-real-launch",
                       rule="real launch() in child processes, killed before every modifying operation "
@@ -683,6 +740,14 @@ def suite_launch(ctx: Ctx) -> SuiteResult:
         res.hit("launch-operations", info.get("n_ops", 0))
         res.nontrivial.add(spec_key(case["spec"]) + str(case["runtime"]))
         res.sample({"case": case, "info": info})
+        res.violations += vs
+    # retention must not run ahead of a save that may not complete
+    for mk in ([1] if ctx.tier == "quick" else [1, 2]):
+        kcase = {"spec": specs[1], "keeper": mk}
+        vs = keeper_crash_case(kcase, res)
+        res.evaluations += 1
+        res.hit("launch-with-keeper")
+        res.nontrivial.add(spec_key(kcase["spec"]) + f"keeper{mk}")
         res.violations += vs
     return res
 
@@ -961,7 +1026,10 @@ def replay(ctx: Ctx, payload: dict) -> SuiteResult:
     res.evaluations = 1
     rng = random.Random(0)
     if isinstance(case, dict) and "spec" in case and isinstance(case["spec"], dict):
-        if "runtime" in case:
+        if "keeper" in case:
+            res.violations = keeper_crash_case({"spec": case["spec"], "keeper": case["keeper"],
+                                                "ks": [case["k"]] if "k" in case else None})
+        elif "runtime" in case:
             vs, info = launch_crash_case({"spec": case["spec"], "runtime": case["runtime"],
                                           "ks": [case["k"]] if "k" in case else None}, rng)
             res.violations = vs
